@@ -133,9 +133,9 @@ Proof.
 Qed.
 Print Assumptions WithKey_tie.
 
-Theorem WithKeyHashPM_tie (CB : option (list N) -> list N) kh p m :
+Theorem WithKeyHashPM_tie (CB : option (list N) -> list N) kh p m : kh <> None ->
   exists g', Kernels4.WithKeyHashPM CB kh p m = Ok (Some g') /\ brel g' (with_key_hash_pm (CB kh) p m).
-Proof. rewrite WithKeyHashPM_spec_tie. unfold with_key_hash_pm. apply WithKeyHashPNM_tie. Qed.
+Proof. intro Hkh. rewrite WithKeyHashPM_spec_tie. unfold with_key_hash_pm. apply WithKeyHashPNM_tie. exact Hkh. Qed.
 Print Assumptions WithKeyHashPM_tie.
 
 (* ====================================================================== *)
@@ -249,7 +249,8 @@ Section BasicSpec.
     Kernels4.BuildBasicFilter BlockHeader_t TokenData_t BStream_t Buffer_t bstream_NewBStreamWriter siphash_Sum64
       sort_Slice BStream_WriteBit BStream_WriteBits BStream_Bytes Buffer_Bytes Buffer_nil chainhash_Hash_CloneBytes
       map_order wire_OutPoint_Serialize wire_MsgBlock_BlockHash fuel block
-    = (do (f, e) <- withKey fuel block (wire_MsgBlock_BlockHash block) ;; Ok (f, Go3.prop 1 e)).
+    = (do _ <- Go3.deref block ;;   (* (phase 5) block.BlockHash() on a nil block: Panic 5 *)
+       do (f, e) <- withKey fuel block (wire_MsgBlock_BlockHash block) ;; Ok (f, Go3.prop 1 e)).
   Proof using. reflexivity. Qed.
 
   (* the empty transaction in front of txs, put into the block wire.NewMsgBlock(&wire.BlockHeader{}) returns
@@ -306,7 +307,8 @@ Section BasicModel.
     intros Hrel Hlen Hfit. unfold gBuildBasic. rewrite BuildBasicFilter_spec_tie.
     pose proof (buildBasicFilterWithKey_tie BlockHeader_t TokenData_t H srt map_order CB OS MO Hsort OS_spec
                   fuel blk (BlockHash blk) txs Hrel Hlen Hfit) as Ht.
-    unfold gBasic in Ht. rewrite Ht.
+    unfold gBasic in Ht.
+    destruct Hrel as (mb & Emb & Hrel'). rewrite Emb at 1. cbn [Go3.deref rbind]. rewrite Ht.
     apply build_view_prop. intros e. apply basic_filter_errs.
   Qed.
 
@@ -345,7 +347,8 @@ Section BasicModel.
       constructor; [apply empty_tx_rel|exact Hrel]. }
     pose proof (buildBasicFilterWithKey_tie BlockHeader_t TokenData_t H srt map_order CB OS MO Hsort OS_spec
                   fuel _ (repeat 0 32) _ Hb Hlen Hfit) as Ht.
-    unfold gBasic in Ht. rewrite Ht.
+    unfold gBasic in Ht.
+    rewrite Ht.
     apply build_view_prop. intros e. apply basic_filter_errs.
   Qed.
 
@@ -410,7 +413,7 @@ Section FilterHashSpec.
   Definition filter_hash_spec (filter : option Kernels3.gcs_Filter) : res (list N * N) :=
     match filter with
     | None => Panic 5
-    | Some f => let '(d, err) := NBytes f in
+    | Some f => do (d, err) <- NBytes f ;;   (* (phase 5) NBytes can panic: Buffer.Grow with a negative count *)
                 if err =? 0 then Ok (chainhash_DoubleHashH d, 0) else Ok (repeat 0 32, Go3.prop 1 err)
     end.
 
@@ -419,14 +422,14 @@ Section FilterHashSpec.
       Buffer_Write chainhash_DoubleHashH filter = filter_hash_spec filter.
   Proof using.
     unfold Kernels4.GetFilterHash, filter_hash_spec. destruct filter as [f|]; [|reflexivity].
-    cbn [Go3.deref rbind]. destruct (NBytes f) as [d err]. destruct (err =? 0); reflexivity.
+    cbn [Go3.deref rbind]. destruct (NBytes f) as [[d err]|e|k]; [|reflexivity|reflexivity]. cbn [rbind]. destruct (err =? 0); reflexivity.
   Qed.
 
   (* DoubleHashH of filterHash ++ prevHeader; the same error behaviour *)
   Definition filter_header_spec (filter : option Kernels3.gcs_Filter) (prev : list N) : res (list N * N) :=
     match filter with
     | None => Panic 5
-    | Some f => let '(d, err) := NBytes f in
+    | Some f => do (d, err) <- NBytes f ;;
                 if err =? 0 then Ok (chainhash_DoubleHashH (chainhash_DoubleHashH d ++ prev), 0)
                 else Ok (repeat 0 32, Go3.prop 1 err)
     end.
@@ -439,7 +442,7 @@ Section FilterHashSpec.
   Proof using.
     intros Hdh Hprev. unfold Kernels4.MakeHeaderForFilter. rewrite GetFilterHash_spec_tie.
     unfold filter_hash_spec, filter_header_spec. destruct filter as [f|]; [|reflexivity].
-    destruct (NBytes f) as [d err]. destruct (err =? 0) eqn:E; cbn [rbind].
+    destruct (NBytes f) as [[d err]|e|k]; [|reflexivity|reflexivity]. cbn [rbind]. destruct (err =? 0) eqn:E; cbn [rbind].
     - change (negb (0 =? 0)) with false. cbv iota.
       rewrite copy_at_0, repeat_length, Hdh.
       rewrite firstn_all2 by (rewrite Hdh; lia).
@@ -462,21 +465,21 @@ Lemma sha256d_len x : length (sha256d x) = 32%nat.
 Proof. apply sha256_length_32. Qed.
 
 (* domain: n is a uint32 *)
-Theorem GetFilterHash_tie varint_size f : f_n f < two64 ->
+Theorem GetFilterHash_tie varint_size f : (forall v, (0 <= varint_size v)%Z) -> f_n f < two64 ->
   gGetFilterHash varint_size (Some (to_gen f)) = Ok (filter_hash f, 0).
 Proof.
-  intros Hn. unfold gGetFilterHash. rewrite GetFilterHash_spec_tie. unfold filter_hash_spec.
-  pose proof (NBytes_tie varint_size f Hn) as Hb. unfold gNBytes in Hb. rewrite Hb. reflexivity.
+  intros Hvs Hn. unfold gGetFilterHash. rewrite GetFilterHash_spec_tie. unfold filter_hash_spec.
+  pose proof (NBytes_tie varint_size Hvs f Hn) as Hb. unfold gNBytes in Hb. rewrite Hb. reflexivity.
 Qed.
 Print Assumptions GetFilterHash_tie.
 
-Theorem MakeHeaderForFilter_tie varint_size f prev : f_n f < two64 -> length prev = 32%nat ->
+Theorem MakeHeaderForFilter_tie varint_size f prev : (forall v, (0 <= varint_size v)%Z) -> f_n f < two64 -> length prev = 32%nat ->
   gMakeHeaderForFilter varint_size (Some (to_gen f)) prev = Ok (filter_header f prev, 0).
 Proof.
-  intros Hn Hprev. unfold gMakeHeaderForFilter.
+  intros Hvs Hn Hprev. unfold gMakeHeaderForFilter.
   rewrite MakeHeaderForFilter_spec_tie by (try exact Hprev; exact sha256d_len).
   unfold filter_header_spec.
-  pose proof (NBytes_tie varint_size f Hn) as Hb. unfold gNBytes in Hb. rewrite Hb. reflexivity.
+  pose proof (NBytes_tie varint_size Hvs f Hn) as Hb. unfold gNBytes in Hb. rewrite Hb. reflexivity.
 Qed.
 Print Assumptions MakeHeaderForFilter_tie.
 
